@@ -435,6 +435,11 @@ func (g *genState) method(c *Controller, idx int, file string) Method {
 	for i := 0; i < nSeg; i++ {
 		if r.Chance(1, 3) {
 			pn := Pick(r, paramNames)
+			if g.profile == "router" && !r.Chance(1, 30) {
+				// one wildcard name per position+prefix: gin refuses to register sibling templates whose
+				// wildcard names differ (a framework restriction, kept rare on purpose)
+				pn = paramNames[hashStr(7, c.Route+"/"+strings.Join(segs, "/"))%uint64(len(paramNames))]
+			}
 			dup := false
 			for _, x := range pathNames {
 				if x == pn {
